@@ -125,6 +125,8 @@ func checkC07(c *Ctx) {
 		close(jobs)
 		wg.Wait()
 	}
+	// concurrent first use of a lazy logger: evaluated exactly once
+	runLazyOnce(c, "C07/", func(k string) bool { return k == "lazy/evaluated-twice" || k == "lazy/context" || k == "lazy/entry-missing" })
 	c.Set("histories_replayed", n)
 	c.Set("exhaustive", false)
 	c.Set("rule", "every history of exactly 4 (thorough 5) steps of LoggerTree.tla (3 cores / 4 loggers / single fields), plus 16 x 4,000 (thorough 40,000) seeded random histories of up to 9 steps with 5 cores / 6 loggers / field counts {1,2,3} / 2 mutations; each replayed on 2-3 of the 9 core kinds in rotation")
@@ -134,6 +136,15 @@ type ltCell struct{ v int }
 type ltStringer struct{ c *ltCell }
 
 func (s ltStringer) String() string { return fmt.Sprintf("v%d", s.c.v) }
+
+// ltNsObj is an object field whose marshaler opens a namespace of its own.
+type ltNsObj struct{}
+
+func (ltNsObj) MarshalLogObject(enc zapcore.ObjectEncoder) error {
+	enc.OpenNamespace("in")
+	enc.AddString("x", "y")
+	return nil
+}
 
 type ltWorld struct {
 	kind  string
@@ -212,10 +223,19 @@ func replayLoggerTree(b ltBeh, kind string, seed int64) (finds []Finding) {
 	loggers := []*zap.Logger{zap.New(w.core)}
 	ncores := 0
 	nlogs := 0
+	objFirst, nsLast := map[int]bool{}, map[int]bool{}
 	mk := func(c, n int) []zap.Field {
-		fs := make([]zap.Field, n)
-		for i := range fs {
-			fs[i] = zap.Stringer(fmt.Sprintf("f%d_%d", c, i+1), ltStringer{cell})
+		fs := []zap.Field{}
+		if rng.Intn(4) == 0 {
+			objFirst[c] = true
+			fs = append(fs, zap.Object(fmt.Sprintf("o%d", c), ltNsObj{}))
+		}
+		for i := 0; i < n; i++ {
+			fs = append(fs, zap.Stringer(fmt.Sprintf("f%d_%d", c, i+1), ltStringer{cell}))
+		}
+		if rng.Intn(4) == 0 {
+			nsLast[c] = true
+			fs = append(fs, zap.Namespace(fmt.Sprintf("ns%d", c)))
 		}
 		return fs
 	}
@@ -242,7 +262,11 @@ func replayLoggerTree(b ltBeh, kind string, seed int64) (finds []Finding) {
 			default:
 				args := []interface{}{}
 				for _, f := range fs {
-					args = append(args, f.Key, f.Interface)
+					if f.Type == zapcore.StringerType {
+						args = append(args, f.Key, f.Interface)
+					} else {
+						args = append(args, f)
+					}
 				}
 				loggers = append(loggers, parent.Sugar().With(args...).Desugar())
 			}
@@ -337,9 +361,33 @@ func replayLoggerTree(b ltBeh, kind string, seed int64) (finds []Finding) {
 				add("C07/name", "entry %d carries logger name %q, its derivation path gives %q", ei+1, g.name, strings.Join(wn, "."))
 			}
 			wk, wv := []string{}, []string{}
-			for _, f := range want.Fields {
-				wk = append(wk, fmt.Sprintf("f%d_%d", f[0], f[1]))
+			prefix := ""
+			flat := g.hasVal // encoding cores nest namespaces; the observer records the flat field list
+			for fi, f := range want.Fields {
+				c := f[0]
+				firstOfCore := fi == 0 || want.Fields[fi-1][0] != c
+				lastOfCore := fi == len(want.Fields)-1 || want.Fields[fi+1][0] != c
+				if firstOfCore && c > 0 && objFirst[c] {
+					if flat {
+						wk = append(wk, fmt.Sprintf("%so%d.in.x", prefix, c))
+						wv = append(wv, "y")
+					} else {
+						wk = append(wk, fmt.Sprintf("o%d", c))
+					}
+				}
+				wk = append(wk, fmt.Sprintf("%sf%d_%d", prefix, f[0], f[1]))
 				wv = append(wv, fmt.Sprintf("v%d", f[2]))
+				if lastOfCore && c > 0 && nsLast[c] {
+					if flat {
+						prefix += fmt.Sprintf("ns%d.", c)
+						if fi == len(want.Fields)-1 {
+							wk = append(wk, strings.TrimSuffix(prefix, "."))
+							wv = append(wv, "{}")
+						}
+					} else {
+						wk = append(wk, fmt.Sprintf("ns%d", c))
+					}
+				}
 			}
 			if strings.Join(g.keys, " ") != strings.Join(wk, " ") {
 				add("C07/fields", "entry %d (destination %d) carries fields %v, its own derivation path + call site give %v", ei+1, di, g.keys, wk)
@@ -376,25 +424,46 @@ func ltParseLine(line []byte, console bool) (ltGot, error) {
 	}
 	dec := json.NewDecoder(strings.NewReader(string(body)))
 	dec.Token() // {
-	for dec.More() {
-		kt, err := dec.Token()
-		if err != nil {
-			return g, err
+	var walk func(prefix string, top bool) error
+	walk = func(prefix string, top bool) error {
+		n := 0
+		for dec.More() {
+			kt, err := dec.Token()
+			if err != nil {
+				return err
+			}
+			k := kt.(string)
+			n++
+			vt, err := dec.Token()
+			if err != nil {
+				return err
+			}
+			if d, ok := vt.(json.Delim); ok && d == '{' {
+				before := len(g.keys)
+				if err := walk(prefix+k+".", false); err != nil {
+					return err
+				}
+				if len(g.keys) == before {
+					g.keys = append(g.keys, prefix+k)
+					g.vals = append(g.vals, "{}")
+				}
+				continue
+			}
+			if top && !console && k == "n" {
+				g.name = fmt.Sprint(vt)
+				continue
+			}
+			if top && !console && k == "m" {
+				continue
+			}
+			g.keys = append(g.keys, prefix+k)
+			g.vals = append(g.vals, fmt.Sprint(vt))
 		}
-		var v interface{}
-		if err := dec.Decode(&v); err != nil {
-			return g, err
-		}
-		k := kt.(string)
-		if !console && k == "n" {
-			g.name, _ = v.(string)
-			continue
-		}
-		if !console && k == "m" {
-			continue
-		}
-		g.keys = append(g.keys, k)
-		g.vals = append(g.vals, fmt.Sprint(v))
+		_, err := dec.Token() // }
+		return err
+	}
+	if err := walk("", true); err != nil {
+		return g, err
 	}
 	return g, nil
 }
